@@ -195,20 +195,6 @@ theorem ser_loop_of {ε : Type} (selfc : RenetClient) (disc : SerErr → RenetCl
     | .panic _ => False := by
   rw [← hx]; exact ser_loop selfc disc body hb l buf total bs hbuf henc htot
 
-theorem attempt_forget_ok {ε ρ ε' σ α : Type} (r : Res (ε' × σ) (σ × α)) (s : σ) (a : α) (h : r.forget = .ok (s, a)) :
-    (Exec.attempt r : Exec ε ρ _) = .val (s, .ok a) := by
-  cases r with
-  | ok v => cases v; simp only [Res.forget] at h; cases h; rfl
-  | err e => simp [Res.forget] at h
-  | panic m => simp [Res.forget] at h
-
-theorem attempt_forget_err {ε ρ ε' σ α : Type} (r : Res (ε' × σ) (σ × α)) (e : ε') (h : r.forget = .err e) :
-    ∃ s, (Exec.attempt r : Exec ε ρ _) = .val (s, .error e) := by
-  cases r with
-  | ok v => simp [Res.forget] at h
-  | err e' => obtain ⟨e1, s⟩ := e'; simp only [Res.forget] at h; cases h; exact ⟨s, rfl⟩
-  | panic m => simp [Res.forget] at h
-
 theorem insert_sent_msgs (m : SMap (Nat × SentInfo)) (k t ch : Nat) (ids : List Nat) :
     RustSem.Map.insert (mapVals reprSentEntry m) k (⟨t, .ReliableMessages ch ids⟩ : PacketSent)
       = mapVals reprSentEntry (SMap.insert m k (t, .relMsgs ch ids)) := insert_mapVals reprSentEntry m k (t, .relMsgs ch ids)
